@@ -18,6 +18,7 @@ type ctx struct {
 	st       *State
 	old      *State         // pre-state for old(...)
 	loopOld  *State         // state at loop entry for entry(...)
+	post     *State         // inside old(...): the state old() was entered from, for now(...)
 	env      map[string]Val // spec-level names: callee params, results, hook arguments
 	bound    map[string]Val // quantified variables
 	spec     bool           // contract expression (names resolved by scope lookup)
@@ -279,6 +280,15 @@ func (e *Eng) globalCell(o *types.Var) string {
 }
 
 func (e *Eng) loadGlobal(st *State, o *types.Var) Val {
+	if o.Pkg() != nil && !e.u.isRepoPkg(o.Pkg().Path()) && types.Identical(o.Type(), types.Universe.Lookup("error").Type()) {
+		// exported error sentinels of dependencies (io.EOF, fs.ErrNotExist, ...)
+		// are treated as non-nil constants
+		n := "|sentinel:" + o.Pkg().Path() + "." + o.Name() + "|"
+		e.declOnce(fmt.Sprintf("(declare-const %s Int)", n))
+		e.declOnce(fmt.Sprintf("(assert (> %s 0))", n))
+		e.noteAssumed("error sentinel " + o.Pkg().Path() + "." + o.Name() + " is a non-nil constant, never reassigned")
+		return Val{K: KRef, T: n, GoT: o.Type()}
+	}
 	switch o.Type().Underlying().(type) {
 	case *types.Struct, *types.Array:
 		return Val{K: KRef, T: e.globalCell(o), GoT: o.Type()}
@@ -702,6 +712,21 @@ func (e *Eng) arithResult(term string, t types.Type, c *ctx, n ast.Node) Val {
 	return Val{K: KInt, T: e.wrap(term, t), GoT: t}
 }
 
+func (e *Eng) boxScalar(v Val) Val {
+	switch v.K {
+	case KStr:
+		e.declOnce("(declare-fun box.str (Str) Int)")
+		e.declOnce("(declare-fun unbox.str (Int) Str)")
+		e.declOnce("(assert (forall ((s Str)) (! (and (= (unbox.str (box.str s)) s) (> (box.str s) 0)) :pattern ((box.str s)))))")
+		return Val{K: KRef, T: "(box.str " + v.T + ")", GoT: v.GoT}
+	case KBool:
+		e.declOnce("(declare-fun box.bool (Bool) Int)")
+		e.declOnce("(assert (and (> (box.bool true) 0) (> (box.bool false) 0)))")
+		return Val{K: KRef, T: "(box.bool " + v.T + ")", GoT: v.GoT}
+	}
+	return v
+}
+
 func (e *Eng) binop(op token.Token, a, b Val, c *ctx, n ast.Node) Val {
 	boolT := types.Typ[types.Bool]
 	// nil comparisons with slices
@@ -715,6 +740,12 @@ func (e *Eng) binop(op token.Token, a, b Val, c *ctx, n ast.Node) Val {
 		case a.K == KSlice && b.K == KSlice:
 			t = "(and (= " + a.Ref + " " + b.Ref + ") (= " + a.Off + " " + b.Off + ") (= " + a.Len + " " + b.Len + "))"
 		default:
+			// interface compared with a concrete scalar: box the scalar
+			if a.K == KRef && (b.K == KStr || b.K == KBool) {
+				b = e.boxScalar(b)
+			} else if b.K == KRef && (a.K == KStr || a.K == KBool) {
+				a = e.boxScalar(a)
+			}
 			if a.K == KInt || b.K == KInt {
 				a, b, _ = e.unify(a, b)
 			}
@@ -1385,17 +1416,18 @@ func (e *Eng) box(v Val, t types.Type, c *ctx) Val {
 	case KStr:
 		e.declOnce("(declare-fun box.str (Str) Int)")
 		e.declOnce("(declare-fun unbox.str (Int) Str)")
-		e.declOnce("(assert (forall ((s Str)) (! (= (unbox.str (box.str s)) s) :pattern ((box.str s)))))")
+		e.declOnce("(assert (forall ((s Str)) (! (and (= (unbox.str (box.str s)) s) (> (box.str s) 0)) :pattern ((box.str s)))))")
 		return Val{K: KRef, T: "(box.str " + v.T + ")", GoT: t}
 	case KInt:
 		if !e.bv {
 			e.declOnce("(declare-fun box.int (Int) Int)")
 			e.declOnce("(declare-fun unbox.int (Int) Int)")
-			e.declOnce("(assert (forall ((s Int)) (! (= (unbox.int (box.int s)) s) :pattern ((box.int s)))))")
+			e.declOnce("(assert (forall ((s Int)) (! (and (= (unbox.int (box.int s)) s) (> (box.int s) 0)) :pattern ((box.int s)))))")
 			return Val{K: KRef, T: "(box.int " + v.T + ")", GoT: t}
 		}
 	case KBool:
 		e.declOnce("(declare-fun box.bool (Bool) Int)")
+		e.declOnce("(assert (and (> (box.bool true) 0) (> (box.bool false) 0)))")
 		return Val{K: KRef, T: "(box.bool " + v.T + ")", GoT: t}
 	}
 	return Val{K: KRef, T: e.newSym("box", "Int"), GoT: t}
